@@ -678,14 +678,7 @@ func isTopLevel(b *ast.BlockStmt, n ast.Node) bool {
 
 func r6(c *core.Ctx) {
 	if fn := c.Func(pkg, "", "NewLoader"); fn != nil {
-		info := fn.Pkg.TypesInfo
-		n1, b := pat.Stmt("_l.crc = digest.New()").Find(info, fn.Decl.Body, nil)
-		ok := false
-		if n1 != nil {
-			n2, _ := pat.Stmt("_l.rdbReader = NewRdbReader(io.TeeReader(_r, _l.crc))").Find(info, fn.Decl.Body, b)
-			ok = n2 != nil
-		}
-		c.Check("R6.crc", "NewLoader/tee-into-digest", fn.Decl.Pos(), ok, "every byte the loader reads is fed to a fresh CRC-64 digest through io.TeeReader")
+		teeIntoDigest(c, fn)
 	}
 	if fn := c.Func(pkg, "Loader", "Footer"); fn != nil {
 		info := fn.Pkg.TypesInfo
@@ -777,6 +770,55 @@ func r8(c *core.Ctx) {
 	pk := c.Pkg(pkg)
 	info := pk.TypesInfo
 	n := 0
+	// sliceLen: the constant length of a byte-slice expression: X[lo:hi] with
+	// constant bounds, arr[:] of an array, make([]byte, k), through locals.
+	var sliceLen func(e ast.Expr, d int) (int64, bool)
+	sliceLen = func(e ast.Expr, d int) (int64, bool) {
+		e = ast.Unparen(e)
+		if d > 6 {
+			return 0, false
+		}
+		switch x := e.(type) {
+		case *ast.Ident:
+			if def := pat.DefOf(info, x); def != nil {
+				return sliceLen(def, d+1)
+			}
+		case *ast.SliceExpr:
+			lo, hi := int64(0), int64(-1)
+			if x.Low != nil {
+				v, ok := core.IntConst(info, x.Low)
+				if !ok {
+					return 0, false
+				}
+				lo = v
+			}
+			if x.High != nil {
+				v, ok := core.IntConst(info, x.High)
+				if !ok {
+					return 0, false
+				}
+				hi = v
+			} else {
+				t := info.TypeOf(x.X)
+				if pt, ok := t.Underlying().(*types.Pointer); ok {
+					t = pt.Elem()
+				}
+				if at, ok := t.Underlying().(*types.Array); ok {
+					hi = at.Len()
+				} else if n, ok := sliceLen(x.X, d+1); ok {
+					hi = n
+				} else {
+					return 0, false
+				}
+			}
+			return hi - lo, hi >= lo
+		case *ast.CallExpr:
+			if id, ok := ast.Unparen(x.Fun).(*ast.Ident); ok && id.Name == "make" && len(x.Args) >= 2 {
+				return core.IntConst(info, x.Args[1])
+			}
+		}
+		return 0, false
+	}
 	for _, f := range pk.Syntax {
 		for _, d := range f.Decls {
 			fd, ok := d.(*ast.FuncDecl)
@@ -786,42 +828,215 @@ func r8(c *core.Ctx) {
 			if core.NamedTypeName(info.TypeOf(fd.Recv.List[0].Type)) != "rdbReader" {
 				continue
 			}
-			// b := r.buf[:K] ; readFull(b) ; binary.X.UintN(b)
-			as, b := pat.Stmt("_b = _r.buf[:_k]").Find(info, fd.Body, nil)
-			if as == nil {
-				continue
-			}
-			k, ok := core.IntConst(info, b["_k"].(ast.Expr))
-			if !ok {
-				continue
-			}
 			core.Inspect(fd.Body, func(m ast.Node) bool {
 				call, ok := m.(*ast.CallExpr)
 				if !ok {
 					return true
 				}
 				fobj := core.CalleeFunc(info, call)
-				if fobj == nil || fobj.Pkg() == nil || fobj.Pkg().Path() != "encoding/binary" || len(call.Args) != 1 || !pat.Same(info, call.Args[0], b["_b"]) {
+				if fobj == nil || fobj.Pkg() == nil || fobj.Pkg().Path() != "encoding/binary" || len(call.Args) != 1 {
 					return true
 				}
 				width := map[string]int64{"Uint16": 2, "Uint32": 4, "Uint64": 8}[fobj.Name()]
 				if width == 0 {
 					return true
 				}
+				k, known := sliceLen(call.Args[0], 0)
+				if !known {
+					return true // a buffer of non-constant length: not a fixed-width read (the entry grammar covers its length)
+				}
+				// the read must fill the same slice
+				baseOf := func(e ast.Expr) types.Object {
+					e = ast.Unparen(e)
+					if id, ok := e.(*ast.Ident); ok {
+						if def := pat.DefOf(info, id); def != nil {
+							if _, isSl := ast.Unparen(def).(*ast.SliceExpr); isSl {
+								e = ast.Unparen(def)
+							}
+						}
+					}
+					if sl, ok := e.(*ast.SliceExpr); ok {
+						e = ast.Unparen(sl.X)
+					}
+					return core.ObjOf(info, e)
+				}
+				filled, sameBase := false, false
+				core.Inspect(fd.Body, func(m2 ast.Node) bool {
+					rc, ok := m2.(*ast.CallExpr)
+					if !ok || rc.Pos() >= call.Pos() {
+						return true
+					}
+					fo := core.CalleeFunc(info, rc)
+					if fo == nil || (fo.Name() != "readFull" && fo.Name() != "ReadFull" && fo.Name() != "Read") {
+						return true
+					}
+					for _, a := range rc.Args {
+						if pat.Same(info, a, call.Args[0]) {
+							filled = true
+						} else if bo := baseOf(a); bo != nil && bo == baseOf(call.Args[0]) {
+							sameBase = true
+						}
+					}
+					return true
+				})
+				if !filled && sameBase {
+					// a zero-initialised scratch buffer filled in part (the 24-bit ziplist
+					// integer): decided by the bit-field rule of the ziplist decoder, not here
+					if v, ok := baseOf(call.Args[0]).(*types.Var); ok && !v.IsField() {
+						return true
+					}
+				}
 				n++
 				c.Check("R8.width", fd.Name.Name, call.Pos(), width == k,
 					fmt.Sprintf("%s reads %d bytes but decodes %d of them: the remaining bytes are dropped and the value is taken from the wrong end (e.g. a 64-bit-form length below 2^32 decodes as 0)", fd.Name.Name, k, width))
+				c.Check("R8.width", fd.Name.Name+"/fills-buffer", fd.Pos(), filled, "the fixed-width read fills exactly the slice that is decoded")
 				return true
 			})
-			// the read must fill the same slice
-			rf, _ := pat.Expr("_r.readFull(_b)").Find(info, fd.Body, b)
-			if rf == nil {
-				rf, _ = pat.Expr("io.ReadFull(_r, _b)").Find(info, fd.Body, b)
-			}
-			c.Check("R8.width", fd.Name.Name+"/fills-buffer", fd.Pos(), rf != nil, "the fixed-width read fills exactly the slice that is decoded")
 		}
 	}
 	if n < 5 {
 		c.Undecidedf("instances", "R8.width", token.NoPos, "only %d fixed-width decoders found, 5 confirmed", n)
 	}
+}
+
+// teeIntoDigest decides R6.crc/NewLoader/tee-into-digest by values, not by
+// statements: the reader handed to NewRdbReader is io.TeeReader(p, d) with p
+// the constructor's reader parameter and d the value of the new Loader's crc
+// field, which is a fresh digest.New(). The loader may be built by a composite
+// literal or by field stores, the tee and the digest may sit in locals.
+func teeIntoDigest(c *core.Ctx, fn *core.Fn) {
+	info := fn.Pkg.TypesInfo
+	const rule, key = "R6.crc", "NewLoader/tee-into-digest"
+	why := "every byte the loader reads is fed to a fresh CRC-64 digest through io.TeeReader"
+	undec := func(format string, a ...interface{}) {
+		c.Undecidedf(rule, key, fn.Decl.Pos(), "%s: %s", why, fmt.Sprintf(format, a...))
+	}
+	var resolve func(e ast.Expr, d int) ast.Expr
+	resolve = func(e ast.Expr, d int) ast.Expr {
+		e = ast.Unparen(e)
+		if id, ok := e.(*ast.Ident); ok && d < 8 {
+			if def := pat.DefOf(info, id); def != nil {
+				return resolve(def, d+1)
+			}
+		}
+		return e
+	}
+	isCallTo := func(e ast.Expr, pkgSuffix, name string) *ast.CallExpr {
+		call, ok := e.(*ast.CallExpr)
+		if !ok {
+			return nil
+		}
+		f := core.CalleeFunc(info, call)
+		if f == nil || f.Name() != name || f.Pkg() == nil || !(f.Pkg().Path() == pkgSuffix || strings.HasSuffix(f.Pkg().Path(), "/"+pkgSuffix)) {
+			return nil
+		}
+		return call
+	}
+	// the reader parameter
+	var param types.Object
+	for _, fl := range fn.Decl.Type.Params.List {
+		for _, nm := range fl.Names {
+			if t := info.TypeOf(fl.Type); t != nil && types.TypeString(t, nil) == "io.Reader" {
+				param = info.Defs[nm]
+			}
+		}
+	}
+	// values given to the fields crc and rdbReader of a Loader in this function
+	type fieldVal struct {
+		val  ast.Expr
+		base types.Object // the variable holding the loader (nil inside a composite literal)
+		lit  *ast.CompositeLit
+		pos  token.Pos
+	}
+	vals := map[string][]fieldVal{}
+	core.Inspect(fn.Decl.Body, func(n ast.Node) bool {
+		switch x := n.(type) {
+		case *ast.CompositeLit:
+			if core.NamedTypeName(info.TypeOf(x)) != "Loader" {
+				return true
+			}
+			for _, el := range x.Elts {
+				if kv, ok := el.(*ast.KeyValueExpr); ok {
+					if id, ok := kv.Key.(*ast.Ident); ok && (id.Name == "crc" || id.Name == "rdbReader") {
+						vals[id.Name] = append(vals[id.Name], fieldVal{val: kv.Value, lit: x, pos: kv.Pos()})
+					}
+				}
+			}
+		case *ast.AssignStmt:
+			if len(x.Lhs) != len(x.Rhs) {
+				return true
+			}
+			for i, l := range x.Lhs {
+				sel, ok := ast.Unparen(l).(*ast.SelectorExpr)
+				if !ok || (sel.Sel.Name != "crc" && sel.Sel.Name != "rdbReader") {
+					continue
+				}
+				if t := info.TypeOf(sel.X); t == nil || core.NamedTypeName(t) != "Loader" {
+					continue
+				}
+				vals[sel.Sel.Name] = append(vals[sel.Sel.Name], fieldVal{val: x.Rhs[i], base: core.ObjOf(info, sel.X), pos: x.Pos()})
+			}
+		}
+		return true
+	})
+	if len(vals["rdbReader"]) != 1 || len(vals["crc"]) > 1 {
+		undec("expected one value for the loader's rdbReader and one for its crc in NewLoader (found %d, %d)", len(vals["rdbReader"]), len(vals["crc"]))
+		return
+	}
+	if len(vals["crc"]) == 0 {
+		c.Failf(rule, key, fn.Decl.Pos(), "%s; NewLoader never sets the crc field: Footer compares against nothing", why)
+		return
+	}
+	rd, crc := vals["rdbReader"][0], vals["crc"][0]
+	// embedded *rdbReader built by NewRdbReader(x)
+	mk := isCallTo(resolve(rd.val, 0), "pkg/rdb", "NewRdbReader")
+	if mk == nil || len(mk.Args) != 1 {
+		undec("the rdbReader is not built by NewRdbReader(reader)")
+		return
+	}
+	src := resolve(mk.Args[0], 0)
+	if id, ok := src.(*ast.Ident); ok && param != nil && info.Uses[id] == param {
+		c.Failf(rule, key, mk.Pos(), "%s; NewRdbReader reads the source directly: nothing is fed to the digest and Footer cannot detect corruption", why)
+		return
+	}
+	tee := isCallTo(src, "io", "TeeReader")
+	if tee == nil || len(tee.Args) != 2 {
+		undec("the reader handed to NewRdbReader is `%s`, not an io.TeeReader", types.ExprString(src))
+		return
+	}
+	if a := resolve(tee.Args[0], 0); param == nil || core.ObjOf(info, a) != param {
+		undec("the tee does not read the constructor's reader parameter but `%s`", types.ExprString(a))
+		return
+	}
+	fresh := isCallTo(resolve(crc.val, 0), "digest", "New")
+	if fresh == nil {
+		undec("the crc field is set to `%s`, not to a fresh digest.New()", types.ExprString(crc.val))
+		return
+	}
+	w := resolve(tee.Args[1], 0)
+	switch {
+	case ast.Node(w) == ast.Node(fresh):
+		// the same digest value through a local
+	case func() bool {
+		sel, ok := w.(*ast.SelectorExpr)
+		if !ok || sel.Sel.Name != "crc" {
+			return false
+		}
+		if t := info.TypeOf(sel.X); t == nil || core.NamedTypeName(t) != "Loader" {
+			return false
+		}
+		// the loader whose crc was set, read after it was set
+		if crc.lit != nil {
+			return true
+		}
+		return core.ObjOf(info, sel.X) == crc.base && crc.pos < tee.Pos()
+	}():
+	case isCallTo(w, "digest", "New") != nil:
+		c.Failf(rule, key, tee.Pos(), "%s; the tee writes into another digest than the one stored in the loader's crc field: Footer compares against a sum of nothing", why)
+		return
+	default:
+		undec("the tee writes into `%s`, which is not recognisably the loader's crc", types.ExprString(w))
+		return
+	}
+	c.Okf(rule, key, fn.Decl.Pos(), "%s", why)
 }
